@@ -140,7 +140,7 @@ func (d *c29Disk) BatchSave(entries []*DBEntry) error {
 			}
 		}
 	}
-	if err == nil {
+	if err == nil && os.Getenv("VERIF_C29_SKIP_SNAPSHOT_ORACLE") == "" { // (the switch is for sensitivity experiments only)
 		// an acknowledged snapshot holds every proof accepted before it was written whose epoch is
 		// still inside the active window (so that no claim round can have gathered it): SendNewProof
 		// stores under the write lock, the snapshot collects and writes under the read lock
@@ -274,9 +274,6 @@ func (d *c29Disk) DeletePrefix(prefix string) error {
 			if kparts[0] != pparts[0] {
 				kind = "epoch-prefix-matched-longer-epoch"
 				w.r.Probe("epoch_prefix_deleted_other_epoch")
-				if os.Getenv("VERIF_C29_STOP_AT") == "epoch_prefix" { // development only
-					w.viol("debug-stop", "epoch_prefix", "DeleteEpochRewards deleted an entry of another epoch: "+k)
-				}
 			}
 		} else if len(kparts) >= 3 && len(pparts) >= 3 && kparts[2] != pparts[2] {
 			kind = "session-prefix-matched-longer-session-id"
@@ -348,8 +345,10 @@ type c29Round struct {
 }
 
 type c29Sub struct {
-	n      int // submissions in this lifetime
-	failed int // submissions whose tx returned an error
+	n          int  // submissions in this lifetime
+	failed     int  // submissions whose tx returned an error
+	flying     int  // transactions carrying the proof right now
+	concurrent bool // two transactions carried the proof at the same time (overlapping claim rounds)
 }
 
 type c29Pay struct {
@@ -372,19 +371,17 @@ type c29Life struct {
 	roundList     []*c29Round
 	pendingArgs   []uint64
 	active        int
-	overlap       bool
 	subs          map[*c29Proof]*c29Sub
-	keyOKSeq      map[c29Key]int    // seq at which a tx carrying a proof of the key first returned success
+	keyPaidSeq    map[c29Key]int    // seq at which PaymentHandler returned for the key's payment
 	okMax         map[c29Key]uint64 // highest CU successfully submitted in this lifetime
 	subMax        map[c29Key]uint64 // highest CU submitted in this lifetime
 	sessKeys      map[uint64]map[c29Key]bool
 	inFlight      map[c29Key]int
+	late          map[c29Key]bool // a proof of the key was still inside SendNewProof when its epoch left the active window
 	payQ          []c29Pay
 	trigSinceSnap int
 	nCalls        int
-	producersLeft int
 	epochDone     bool
-	payStop       bool
 	loadOpen      bool
 }
 
@@ -591,7 +588,6 @@ func (t *c29Tx) EarliestBlockInMemory(ctx context.Context) (uint64, error) {
 		L.roundList = append(L.roundList, rd)
 		L.active++
 		if L.active > 1 {
-			L.overlap = true
 			w.r.Probe("overlapping_claim_rounds")
 		}
 		w.r.Logf("[%s] claim round R%d starts: chain epoch %d, earliest in memory %d, window %d", w.clock(), rd.id, w.cur, w.earliest, w.dist)
@@ -645,6 +641,14 @@ func (t *c29Tx) TxRelayPayment(ctx context.Context, relays []*pairingtypes.Relay
 			return errors.New("sim: stop")
 		}
 	}
+	for _, rec := range recs {
+		L.subs[rec].flying++
+	}
+	defer func() {
+		for _, rec := range recs {
+			L.subs[rec].flying--
+		}
+	}()
 	// the transaction takes time
 	lat := time.Duration(r.Draw("f.tx", 40)) * 50 * time.Millisecond
 	if w.fault("f.tx", "tx_slow", w.fr.txSlow) {
@@ -694,9 +698,6 @@ func (t *c29Tx) TxRelayPayment(ctx context.Context, relays []*pairingtypes.Relay
 		return errors.New("sim: tx failed")
 	}
 	for _, rec := range recs {
-		if L.keyOKSeq[rec.key] == 0 {
-			L.keyOKSeq[rec.key] = w.seq
-		}
 		if rec.cu > L.okMax[rec.key] {
 			L.okMax[rec.key] = rec.cu
 		}
@@ -732,12 +733,16 @@ func (w *c29World) checkSubmission(L *c29Life, rec *c29Proof, rd *c29Round) {
 		L.sessKeys[K.sess] = map[c29Key]bool{}
 	}
 	L.sessKeys[K.sess][K] = true
+	if st.flying > 0 {
+		st.concurrent = true
+		r.Probe("same_proof_in_two_transactions_at_once")
+	}
 	flags := func() string {
+		if st.concurrent {
+			return "overlapping-claim-rounds"
+		}
 		if len(L.sessKeys[K.sess]) > 1 {
 			return "session-id-shared-by-several-keys"
-		}
-		if L.overlap {
-			return "overlapping-claim-rounds"
 		}
 		return "plain"
 	}
@@ -760,7 +765,7 @@ func (w *c29World) checkSubmission(L *c29Life, rec *c29Proof, rd *c29Round) {
 		}
 	}
 	// (1) the best proof received before the claim round started
-	if st.n == 1 && rd != nil {
+	if st.n == 1 && rd != nil && !L.late[K] {
 		need, src := L.restored[K], "restored from the DB at start-up"
 		for _, q := range w.sent[K] {
 			if q.life == L.idx && q.recvSeq > 0 && q.recvSeq < rd.startSeq && q.cu > need {
@@ -788,9 +793,11 @@ func (w *c29World) checkSubmission(L *c29Life, rec *c29Proof, rd *c29Round) {
 		w.viol("resubmitted-without-failure", flags(), fmt.Sprintf("proof %s submitted a second time although no transaction carrying it has failed", rec))
 		return
 	}
-	if ok := L.keyOKSeq[K]; ok > 0 && rd != nil && rd.startSeq > ok {
+	// (5) no claim of a key by a round that started after its payment was confirmed (and its DB
+	// entry deleted by PaymentHandler) in this lifetime
+	if paid := L.keyPaidSeq[K]; paid > 0 && rd != nil && rd.startSeq > paid && !L.late[K] {
 		r.OracleEvals++
-		w.viol("resubmitted-after-success", flags(), fmt.Sprintf("key %s: proof cu=%d submitted by round R%d (started at #%d) after a transaction carrying a proof of that key had succeeded at #%d in the same process lifetime", K, rec.cu, rd.id, rd.startSeq, ok))
+		w.viol("resubmitted-after-payment", flags(), fmt.Sprintf("key %s: proof cu=%d submitted by round R%d (started at #%d) after the payment of that key had been confirmed to PaymentHandler at #%d in the same process lifetime", K, rec.cu, rd.id, rd.startSeq, paid))
 		return
 	}
 }
@@ -849,7 +856,6 @@ func (w *c29World) producer(L *c29Life, pi int, n int) {
 	r := w.r
 	stream := fmt.Sprintf("p%d", pi)
 	name := fmt.Sprintf("P%d", pi)
-	defer func() { L.producersLeft-- }()
 	ctx := context.Background()
 	for i := 0; i < n; i++ {
 		think := time.Duration(r.Draw(stream, 40)) * 50 * time.Millisecond
@@ -948,6 +954,13 @@ func (w *c29World) producer(L *c29Life, pi int, n int) {
 		}
 		w.seq++
 		rec.recvSeq = w.seq
+		if K.epoch+w.dist <= w.cur {
+			// the chain moved on while this call was in flight (relay served across an epoch change): the
+			// proof may have been stored after its epoch was gathered for claim. Such keys are exempt
+			// from the oracles that assume "no proof after the claim" (see Assume).
+			L.late[K] = true
+			r.Probe("proof_in_flight_while_its_epoch_left_the_window")
+		}
 		if trig {
 			r.Probe("snapshot_by_threshold")
 		}
@@ -1080,6 +1093,10 @@ func (w *c29World) deliver(L *c29Life, pay c29Pay) {
 		r.Logf("[%s] payment event for %s cu=%d -> PaymentHandler", w.clock(), c29Short(K), p.CU)
 		L.rws.PaymentHandler(p)
 		w.paying = nil
+		w.seq++
+		if L.keyPaidSeq[K] == 0 {
+			L.keyPaidSeq[K] = w.seq
+		}
 		r.Op("payment", "ok")
 		if w.dead {
 			return
@@ -1119,9 +1136,6 @@ func c29NewWorld(r *simrt.Run) *c29World {
 	for i := 0; i < nCons; i++ {
 		acc := sigs.GenerateDeterministicFloatingKey(zr)
 		w.cons = append(w.cons, c29Consumer{acc: acc, addr: acc.Addr.String()})
-	}
-	if v := os.Getenv("VERIF_C29_SESSMODE"); v != "" { // development only
-		w.sessMode, _ = strconv.Atoi(v)
 	}
 	switch w.sessMode {
 	case 2: // short ids chosen by the consumers, shared by all of them: 1 is a decimal prefix of 10 and 100
@@ -1209,8 +1223,8 @@ func runC29(r *simrt.Run) {
 func (w *c29World) runLife(s *simrt.Sched, li int, final bool) {
 	r := w.r
 	L := &c29Life{idx: li, start: time.Now(), restoreSeq: map[string]int{}, findAllFailed: map[string]bool{}, restored: map[c29Key]uint64{},
-		rounds: map[int64]*c29Round{}, subs: map[*c29Proof]*c29Sub{}, keyOKSeq: map[c29Key]int{}, okMax: map[c29Key]uint64{}, subMax: map[c29Key]uint64{},
-		sessKeys: map[uint64]map[c29Key]bool{}, inFlight: map[c29Key]int{}, loadOpen: true}
+		rounds: map[int64]*c29Round{}, subs: map[*c29Proof]*c29Sub{}, keyPaidSeq: map[c29Key]int{}, okMax: map[c29Key]uint64{}, subMax: map[c29Key]uint64{},
+		sessKeys: map[uint64]map[c29Key]bool{}, inFlight: map[c29Key]int{}, late: map[c29Key]bool{}, loadOpen: true}
 	w.life = L
 	w.crashReq = false
 	tx := &c29Tx{w: w, L: L}
@@ -1246,7 +1260,6 @@ func (w *c29World) runLife(s *simrt.Sched, li int, final bool) {
 	if loadEpochs > 0 {
 		for i := 0; i < nProd; i++ {
 			i := i
-			L.producersLeft++
 			s.Go(fmt.Sprintf("P%d", i), true, func() { w.producer(L, i, per) })
 		}
 	}
@@ -1461,7 +1474,7 @@ func (w *c29World) finalChecks(L *c29Life) {
 					best = q.cu
 				}
 			}
-			if best == 0 {
+			if best == 0 || L.late[K] {
 				continue
 			}
 			rd := w.eligible(L, K, 0)
@@ -1497,6 +1510,6 @@ func init() {
 		Rule:    "One run = 1-3 process lifetimes of the real RewardServer+RewardDB, each inside its own synctest bubble under the token-passing scheduler (every lock, atomic, channel op, select, WaitGroup.Wait, sleep and `go` of the instrumented rewardserver package is a scheduling point; every map range is ordered by the simulator: sorted / reversed / shuffled per run). Tasks: 1-4 proof producers (SendNewProof for 1-3 consumers x 1-2 chains x the epochs still inside the active window; CuSum increasing, equal and decreasing; relay numbers that hit the snapshot threshold; session ids either fresh random 63-bit per consumer/chain/epoch as lavasession consumers make them, or short ids 1/10/100/7 shared by consumers, chains and epochs), an epoch task (simulated chain advances, young chain starting at epoch 10/20 or mature chain, UpdateEpoch per epoch), a payment task (relay_payment events built like x/pairing emits them, parsed by BuildPaymentFromRelayPaymentEvent, fed to PaymentHandler), the start-up task (AddDB + restoreRewardsFromDB per chain under the server lock), the server's own snapshot job and claim rounds. Profiles: clean (no fault at all; every best proof must be claimed), faults (tx failure 1/8..7/8, tx panic, tx slower than an epoch, DB write failure, torn batch, DB delete / read failure, missed epoch updates, multi-epoch jumps, lost payment events), crash (faults + 1-2 crashes at a tape-chosen scheduling point or, adaptively, right after an unclaimed durable proof vanished from the disk; downtime 0-6 epochs; restart over the SimDisk content), badger (clean, on the real in-memory Badger). Non-trivial = >=3 accepted proofs, >=1 claim transaction, >=50 context switches; distinct = (op,outcome,fault) sequence x context-switch sequence",
 		Real:    []string{"protocol/rpcprovider/rewardserver RewardServer: SendNewProof/saveProofInMemory, UpdateEpoch -> runRewardServerEpochUpdate -> sendRewardsClaim/gatherRewardsForClaim/gatherFailedRequestPaymentsToRetry/updatePaymentRequestAttempt, PaymentHandler, snapshot job (timer + threshold), restoreRewardsFromDB, BuildPaymentFromRelayPaymentEvent (instrumented copies through the build overlay)", "RewardDB (key assembly, BatchSave, FindAllInDB, DeleteClaimedRewards, DeleteEpochRewards)", "BadgerDB on in-memory Badger (profile badger only)", "utils/sigs signing and signer recovery of every proof (deterministic consumer keys)", "goccy/go-json encoding of the stored proofs", "timers / context deadlines on the synctest fake clock"},
 		Stubbed: []string{"RewardsTxSender + ChainTrackerSpecsInf: simulated lava chain (epoch, earliest epoch in memory, payment window = GetEpochSizeMultipliedByRecommendedEpochNumToCollectPayment), TxRelayPayment records every call and fails / panics / is slow by tape", "rewardserver.DB: SimDisk (acknowledged writes durable, write failure, torn batch, delete and read failure), survives crashes", "relay server (producer tasks calling SendNewProof like RPCProviderServer.SendProof)", "state tracker: epoch updates and payment events (routed by description like PaymentUpdater)", "process crash = the bubble of that lifetime ends, nothing but SimDisk and the chain survives", "provider metrics = nil"},
-		Assume:  []string{"code between two instrumented synchronisation points is atomic in the simulation (every simulated schedule is a real one, not vice versa): a data race without any lock is invisible", "GetEpochSize reports 1 so that the crypto/rand claim delay of AddRewardDelayForUnifiedRewardDistribution is always 0 (runs stay a function of the tape)", "start-up uses AddDB + restoreRewardsFromDB under the server lock exactly like AddDataBase, whose hard-wired NewLocalDB (Badger on disk) is replaced by the SimDisk handle", "a proof reaches SendNewProof only while its epoch is inside the active window (the session manager rejects relays of blocked epochs); no proof arrives for an epoch that was already gathered for claim", "a claim is linked to its claim round through the goroutine that created the TxRelayPayment goroutine; the memory bound is checked against the earliest epoch the chain reported to that round, the window bound against the chain at the submission instant", "`claimed after restart` means handed to TxRelayPayment at least once with at least the durable CuSum; proofs given up after MaxPaymentRequestsRetiresForSession failed submissions, claimed successfully or paid before the crash are not required", "SimDisk honours the entry TTL (24 h default) on the simulated clock; no run lasts that long"},
+		Assume:  []string{"code between two instrumented synchronisation points is atomic in the simulation (every simulated schedule is a real one, not vice versa): a data race without any lock is invisible", "GetEpochSize reports 1 so that the crypto/rand claim delay of AddRewardDelayForUnifiedRewardDistribution is always 0 (runs stay a function of the tape)", "start-up uses AddDB + restoreRewardsFromDB under the server lock exactly like AddDataBase, whose hard-wired NewLocalDB (Badger on disk) is replaced by the SimDisk handle", "a proof is handed to SendNewProof only while its epoch is inside the active window (the session manager rejects relays of blocked epochs); when the chain leaves that window while the call is still in flight (in production possible only if the random claim delay is 0) the proof is let through, but its key is exempt from the best-proof, no-claim-after-payment and completeness oracles, which presuppose that no proof arrives after its epoch was gathered for claim", "a claim is linked to its claim round through the goroutine that created the TxRelayPayment goroutine; the memory bound is checked against the earliest epoch the chain reported to that round, the window bound against the chain at the submission instant", "`claimed after restart` means handed to TxRelayPayment at least once with at least the durable CuSum; proofs given up after MaxPaymentRequestsRetiresForSession failed submissions, claimed successfully or paid before the crash are not required", "SimDisk honours the entry TTL (24 h default) on the simulated clock; no run lasts that long"},
 	})
 }
